@@ -178,7 +178,7 @@ Proof.
   (* however the source computes the key (helper, inlined if/elif, conditional expression): decide it first *)
   destruct key as [kf|]; unfold_partition; pyr; norm_assoc;
     match goal with |- context [assoc_get ?k keyed] => destruct (assoc_get k keyed) as [[vs ms]|] eqn:E end; pyr; norm_assoc;
-    repeat match goal with |- context [length ?l =? n] => destruct (length l =? n) end; norm_assoc; reflexivity.
+    repeat (split_eqb; norm_assoc); reflexivity.
 Qed.
 Theorem bridge_update_partition n key s p x m :
   gen_update_partition n key s p x m = update (KPartition n key) s p x m.
@@ -604,18 +604,18 @@ Proof.
   - (* keep = 'last' *)
     pu. rewrite GM. destruct (assoc_get y K) as [[ovs om]|] eqn:G; cbn [option_map snd truthy_optmd].
     + destruct om as [|i om]; fin_pu SB SM RB RM GB GM;
-        (destruct (length (assoc_remove y K ++ [(y, ([x], m))]) =? n); fin_pu SB SM RB RM GB GM;
+        (split_eqb; fin_pu SB SM RB RM GB GM;
          unfold partition_unique_store; fin_pu SB SM RB RM GB GM; reflexivity).
     + fin_pu SB SM RB RM GB GM;
-        (destruct (length (assoc_remove y K ++ [(y, ([x], m))]) =? n); fin_pu SB SM RB RM GB GM;
+        (split_eqb; fin_pu SB SM RB RM GB GM;
          unfold partition_unique_store; fin_pu SB SM RB RM GB GM; reflexivity).
   - (* keep = 'first' *)
     pu. rewrite GB. destruct (assoc_get y K) as [[ovs om]|] eqn:G; cbn [option_map is_none negb].
     + destruct m as [|i m]; fin_pu SB SM RB RM GB GM;
-        (destruct (length K =? n); fin_pu SB SM RB RM GB GM;
+        (split_eqb; fin_pu SB SM RB RM GB GM;
          unfold partition_unique_store; fin_pu SB SM RB RM GB GM; reflexivity).
     + fin_pu SB SM RB RM GB GM;
-        (destruct (length (K ++ [(y, ([x], m))]) =? n); fin_pu SB SM RB RM GB GM;
+        (split_eqb; fin_pu SB SM RB RM GB GM;
          unfold partition_unique_store; fin_pu SB SM RB RM GB GM; reflexivity).
 Qed.
 
@@ -697,18 +697,18 @@ Proof.
   unfold zip_buffers_getitem, zip_buffers_item_append, zip_buffers_values, zip_buffers_each_popleft, zip_upstreams.
   destruct s as [acc cnt det keyed win seen ports last]. cbn [st_ports] in Hp. pyr.
   set (L := nth p ports [] ++ [(x, m)]). set (B := set_nth p L ports).
-  unfold B at 1. rewrite (nth_set_nth_same p L [] ports Hp). fold B.
-  rewrite forallb_truthy.
-  destruct ((length L =? 1) && forallb (fun b => negb (length b =? 0)) B) eqn:C; pyr.
-  - apply andb_true_iff in C as [_ C]. rewrite <- forallb_truthy in C.
-    rewrite bind_unfold.
+  assert (NB : nth p B [] = L) by (apply nth_set_nth_same, Hp).
+  rewrite ?NB, <- ?forallb_truthy.
+  (* the two things update asks, decided one by one (in whatever order and spelling the source tests them) *)
+  split_eqb_on (length L) 1; destruct (forallb truthy_list B) eqn:C; cbn [andb]; pyr; rewrite ?NB.
+  1: { rewrite bind_unfold.
     match goal with |- context [mapM ?f (seq 0 (length B)) ?st] =>
       assert (Hf : forall up s, f up s = match nth_error (nth up (st_ports s) []) 0 with Some h => Ok h s [] | None => Err [] end)
         by (intros up s0; pyr; destruct (nth_error (nth up (st_ports s0) []) 0); reflexivity);
       pose proof (mapM_heads f Hf B [] st eq_refl C) as Hm; change (length (@nil (list (val * md)))) with 0 in Hm; rewrite Hm end.
     pyr. rewrite bind_unfold. unfold wr_get at 1. cbn [st_ports set_ports]. rewrite C. pyr. unfold unzip_pairs. cbn [fst snd]. rewrite flatten_md_map_snd.
-    destruct lits as [|l lits]; pyr; reflexivity.
-  - destruct (maxsize <? length (nth p B [])); reflexivity.
+    destruct lits as [|l lits]; pyr; reflexivity. }
+  all: destruct (maxsize <? length L); reflexivity.
 Qed.
 
 Theorem bridge_update_zip lits maxsize s p x m : p < length (st_ports s) ->
